@@ -15,6 +15,8 @@ pub struct Pools {
     pub id_friendly: Vec<char>,
     pub ff_valid: Vec<char>,
     pub cased: Vec<char>,
+    /// every character that has a lowercase mapping different from itself
+    pub cased_all: Vec<char>,
     pub zs: Vec<char>,
     /// characters whose NFKC form contains a Zs character
     pub nfkc_space: Vec<char>,
@@ -230,7 +232,7 @@ fn build_pools() -> Pools {
         }
     }
     Pools {
-        general, simple, id_friendly, decomposable, compose_tail, starter_pairs, id_valid, ff_valid, cased, zs, nfkc_space, compat_ff, width, ctx, norm: norm_pool, rtl,
+        general, simple, id_friendly, cased_all: ch(&cased_all), decomposable, compose_tail, starter_pairs, id_valid, ff_valid, cased, zs, nfkc_space, compat_ff, width, ctx, norm: norm_pool, rtl,
         by_bidi16, by_id, by_ff, by_gc63, by_jt, virama,
     }
 }
